@@ -2,6 +2,7 @@
 (* Statements only; the proofs are in Proofs/Backquote.v.                     *)
 From TL Require Import Base.Base Model.Reader Model.Printer Model.Store Model.Eval Model.Init.
 From TL Require Import Proofs.Lists Proofs.Backquote.
+From TL Require Import Model.Api Proofs.Heap Proofs.Build.
 Local Open Scope list_scope.
 
 (* A template list `(e1 ... en . tl)` is evaluated as a fold from left to    *)
@@ -37,6 +38,30 @@ Theorem C07_list_append_construction : forall rec val sub,
   (Ok (of_list (xs ++ List.concat (map (seg val sub) es)) (tail_value val tl)), s).
 Proof. exact bq_fold_value. Qed.
 
+(* FRESHNESS, on the object heap of Model/Api.v (cells with identity; the object *)
+(* API of the implementation is compared with it in C20).  eval_back_quote builds *)
+(* its result the way [build] does: a new empty-list object, then one push per    *)
+(* literal or unquoted element and one append per spliced list (src/eval.rs;      *)
+(* likewise ctx.map / ctx.filter / eval_each for mapcar, seq-filter, list).  For   *)
+(* EVERY such construction, of any length, on any heap: the result is a chain of   *)
+(* cells that did not exist before (spine cells and the final empty-list object    *)
+(* all at or after the old allocation pointer), and no cell that existed before    *)
+(* has been written - so the template, the spliced lists and every other object    *)
+(* read exactly as before, and a second evaluation cannot disturb the result of    *)
+(* the first.                                                                       *)
+Theorem C07_result_is_fresh : forall h ops h' a, wfh h -> build h ops = Ok (h', a) ->
+  a = hnext h /\ wfh h' /\ same_below (hnext h) h h' /\ FC h' (hnext h) a /\ (hnext h < hnext h')%positive.
+Proof. exact build_fresh. Qed.
+Theorem C07_template_and_spliced_lists_unchanged : forall h ops h' a, wfh h -> build h ops = Ok (h', a) ->
+  forall fuel x, below fuel h (hnext h) x = true -> abs fuel h' x = abs fuel h x.
+Proof. exact build_leaves_old_objects. Qed.
+Theorem C07_results_are_independent : forall h ops1 h1 a1 ops2 h2 a2, wfh h ->
+  build h ops1 = Ok (h1, a1) -> build h1 ops2 = Ok (h2, a2) ->
+  a1 <> a2 /\ forall fuel x, below fuel h1 (hnext h1) x = true -> abs fuel h2 x = abs fuel h1 x.
+Proof. exact builds_independent. Qed.
+Print Assumptions C07_result_is_fresh. Print Assumptions C07_template_and_spliced_lists_unchanged.
+Print Assumptions C07_results_are_independent.
+
 Print Assumptions C07_left_to_right_fold. Print Assumptions C07_unquote_is_eval.
 Print Assumptions C07_literal_atoms. Print Assumptions C07_under_quote_marks.
 Print Assumptions C07_list_append_construction.
@@ -56,6 +81,26 @@ Example C07_ex :
   run0 "(setq l '(2 3)) `(a ,(tick 1 1) ,@(tick 2 l) (b ,(tick 3 4)) ',(tick 4 5) ,@nil . ,(tick 5 6))"
   = (fst (run0 "'(a 1 2 3 (b 4) '5 . 6)"), [5; 4; 3; 2; 1]%Z).
 Proof. vm_compute. reflexivity. Qed.
+
+(* non-vacuity of the heap theorems: `(3 ,@l 1) with l = (1 2), built twice *)
+Definition hp0 : heap := {| cells := PositiveMap.empty hval; hnext := 1%positive |}.
+Definition hp5 : heap :=   (* 1: 1   2: 2   3: nil   4: (2)   5: (1 2)   6: 3 *)
+  let h := fst (halloc hp0 (HInt 1)) in let h := fst (halloc h (HInt 2)) in
+  let h := fst (halloc h HNil) in let h := fst (halloc h (HCons 2 3)) in
+  let h := fst (halloc h (HCons 1 4)) in fst (halloc h (HInt 3)).
+Lemma hp5_wf : wfh hp5.
+Proof. unfold hp5. repeat apply wfh_alloc. intros c _. apply PositiveMap.gempty. Qed.
+Example C07_heap_ex :
+  match build hp5 [BPush 6; BAppend 5; BPush 1]%positive with
+  | Ok (h1, a1) =>
+      abs 9 h1 a1 = Some (of_list [Int 3; Int 1; Int 2; Int 1] Nil) /\ abs 9 h1 5%positive = Some (of_list [Int 1; Int 2] Nil) /\
+      match build h1 [BPush 6; BAppend 5; BPush 1]%positive with
+      | Ok (h2, a2) => abs 9 h2 a2 = abs 9 h1 a1 /\ abs 9 h2 a1 = abs 9 h1 a1 /\ a1 <> a2
+      | _ => False
+      end
+  | _ => False
+  end.
+Proof. vm_compute. repeat split; discriminate. Qed.
 
 Check C07_left_to_right_fold : forall rec es tl s, es <> [] -> consp tl = false ->
   eval_bq rec (of_list es tl) s = bq_fold rec es tl Nil s.
